@@ -75,6 +75,19 @@ func HarnessC10Knows(lr, lp int) {
 			r = verifAnd(r, verifOr(verifOr(verifOr(c == '/', c == 'a'), verifOr(c == 'b', c == '.')), c == 'A'))
 			if i > 0 {
 				r = verifAnd(r, verifNot(verifAnd(s[i-1] == '/', c == '/'))) // no "//"
+				// no segment "." or ".." (filepath.Abs would clean them away)
+				end1 := i+1 == len(s)
+				if !end1 {
+					end1 = s[i+1] == '/'
+				}
+				r = verifAnd(r, verifNot(verifAnd(verifAnd(s[i-1] == '/', c == '.'), end1)))
+				if i+1 < len(s) {
+					end2 := i+2 == len(s)
+					if !end2 {
+						end2 = s[i+2] == '/'
+					}
+					r = verifAnd(r, verifNot(verifAnd(verifAnd(s[i-1] == '/', c == '.'), verifAnd(s[i+1] == '.', end2))))
+				}
 			}
 		}
 		if len(s) > 0 {
@@ -85,7 +98,7 @@ func HarnessC10Knows(lr, lp int) {
 		}
 		return r
 	}
-	verifAssumeNote(verifAnd(ok(root), ok(path)), "C10 Knows: root and path are absolute, slash-clean paths over {/, a, b, A, .} (filepath.Abs is then the identity; paths are case-sensitive)")
+	verifAssumeNote(verifAnd(ok(root), ok(path)), "C10 Knows: root and path are absolute, clean paths (no empty, `.` or `..` segment) over {/, a, b, A, .} (filepath.Abs is then the identity; paths are case-sensitive)")
 	p := &Project{root: root}
 	got := p.Knows(path)
 	want := false
